@@ -16,7 +16,7 @@ from __future__ import annotations
 
 import json
 
-from . import core, optgen
+from . import core, optgen, rwtrace
 
 LEVEL = "model_checking"
 
@@ -155,6 +155,20 @@ def run(ctx: core.Ctx):
                 if r.get("abs0"):
                     items += [it for it in r["abs0"] if it["id"].endswith("/graph")]
     fams = optgen.direction_family(ctx, want_abs=True)
+    # direction B: rewriter traces recorded while the family models went through optimize()/rewrite() (default rules on
+    # nested graphs) and while the repository's own rewriter / optimizer tests ran, executed by TLC on RewriteApply.tla
+    fam_traces = []
+    for fam, res in fams:
+        if isinstance(res, dict):
+            for v in res["variants"]:
+                for t in v.pop("rwtraces", None) or []:
+                    t["id"] = f"family/{fam[0]}/{v['name']}/{len(fam_traces)}"
+                    fam_traces.append(t)
+    rwtrace.stage(ctx, fam_traces, "C04", known_clause_findings={
+        "apply_overwritten_initializer_unused": "init_clash_overwrite",
+        "end_every_graph_topologically_ordered": "multi_output_insertion_point",
+        "apply_replacement_reads_visible_values": "multi_output_insertion_point",
+    })
     for fam, res in fams:
         if isinstance(res, dict):
             for v in res["variants"]:
